@@ -14,14 +14,68 @@ class EncodingError(Exception):
 
 # ====================================================================================== bins()
 class SymSet:
-    """set = singletons + closed ranges [lo, hi] (symbolic)"""
+    """set = singletons + closed ranges [lo, hi] (symbolic); g* members are present only under their guard (results of merged paths)"""
 
-    def __init__(self, singles=(), ranges=()):
+    def __init__(self, singles=(), ranges=(), gsingles=(), granges=()):
         self.singles = list(singles)
         self.ranges = list(ranges)
+        self.gsingles = list(gsingles)
+        self.granges = list(granges)
 
     def contains(self, b):
-        return z3.Or([b == s for s in self.singles] + [z3.And(lo <= b, b <= hi) for lo, hi in self.ranges])
+        return z3.Or([b == s for s in self.singles] + [z3.And(lo <= b, b <= hi) for lo, hi in self.ranges]
+                     + [z3.And(g, b == s) for g, s in self.gsingles] + [z3.And(g, lo <= b, b <= hi) for g, lo, hi in self.granges])
+
+    def guarded(self, g):
+        return SymSet(gsingles=[(g, s) for s in self.singles] + [(z3.And(g, g2), s) for g2, s in self.gsingles],
+                      granges=[(g, lo, hi) for lo, hi in self.ranges] + [(z3.And(g, g2), lo, hi) for g2, lo, hi in self.granges])
+
+    def union(self, other):
+        return SymSet(self.singles + other.singles, self.ranges + other.ranges, self.gsingles + other.gsingles, self.granges + other.granges)
+
+
+class MemoRef:
+    """a module-level dict the function under translation WRITES to: a memo table"""
+
+    def __init__(self, name):
+        self.name = name
+
+
+def _merge_results(paths):
+    """[(pc, value)] of an inlined call -> one value: ITE over ints, guarded union over sets"""
+    if not paths:
+        raise EncodingError("inlined call returns on no path")
+    if all(isinstance(v, SymSet) for _, v in paths):
+        out = SymSet()
+        for pc, v in paths:
+            out = out.union(v.guarded(pc))
+        return out
+    if any(v is None or isinstance(v, (tuple, MemoRef)) for _, v in paths):
+        raise EncodingError("inlined call mixes result kinds")
+    # ints on some paths, a set on others (bins(one=True) falling through its loop): the set is represented by the NONINT marker, as in bin1()
+    paths = [(pc, z3.IntVal(-777) if isinstance(v, SymSet) else v) for pc, v in paths]
+    out = paths[-1][1]
+    out = out if z3.is_expr(out) else z3.IntVal(out)
+    for pc, v in reversed(paths[:-1]):
+        out = z3.If(pc, v if z3.is_expr(v) else z3.IntVal(v), out)
+    return out
+
+
+def _tuple_eq(a, b):
+    """equality of two keys (tuples of concrete values / z3 terms): python bool or z3 term"""
+    if isinstance(a, tuple) != isinstance(b, tuple):
+        return False
+    if not isinstance(a, tuple):
+        a, b = (a,), (b,)
+    if len(a) != len(b):
+        return False
+    conds = []
+    for x, y in zip(a, b):
+        if z3.is_expr(x) or z3.is_expr(y):
+            conds.append((x if z3.is_expr(x) else z3.IntVal(x)) == (y if z3.is_expr(y) else z3.IntVal(y)))
+        elif x != y or type(x) is not type(y):
+            return False
+    return z3.And(conds) if conds else True
 
 
 def _shr(x, k):
@@ -56,6 +110,37 @@ class BinsEncoder:
         self.nodes = 0
         self.side_conditions = []
         self._pc = []
+        # helper functions of the same module are inlined; module-level dicts the code WRITES to are memo tables
+        self.helpers = {}
+        self.memo_names = set()
+        self._scan(self.fn, set())
+        self.mode = "plain"
+        self.stores = []  # producer mode: (pc list, key, value) of every memo write
+        self.producer_stores = []  # consumer mode: what earlier calls may have left in the memo table
+        self.memo_calls = []  # [{start, stop (z3 consts), fmt, one}] the hypothetical earlier calls (free variables of every query)
+        self._n = 0
+
+    def _scan(self, fn, seen):
+        for node in ast.walk(fn):
+            if isinstance(node, ast.Call) and isinstance(node.func, ast.Name):
+                name = node.func.id
+                obj = getattr(self.B, name, None)
+                if inspect.isfunction(obj) and obj.__module__ == self.B.__name__ and name not in seen and name != self.fn.name:
+                    seen.add(name)
+                    fd = ast.parse(inspect.getsource(obj)).body[0]
+                    if fd.args.kwonlyargs or fd.args.vararg or fd.args.kwarg:
+                        raise EncodingError("helper %s has an unsupported signature" % name)
+                    self.helpers[name] = fd
+                    self._scan(fd, seen)
+            tgt = None
+            if isinstance(node, ast.Assign) and len(node.targets) == 1 and isinstance(node.targets[0], ast.Subscript):
+                tgt = node.targets[0].value
+            if isinstance(tgt, ast.Name) and isinstance(getattr(self.B, tgt.id, None), dict):
+                self.memo_names.add(tgt.id)
+
+    @property
+    def has_memo(self):
+        return bool(self.memo_names)
 
     # ---- expression evaluation
     def ev(self, node, env):
@@ -65,9 +150,15 @@ class BinsEncoder:
         if isinstance(node, ast.Name):
             if node.id in env:
                 return env[node.id]
+            if node.id in self.memo_names:
+                return MemoRef(node.id)
             if node.id in self.const:
                 return self.const[node.id]
+            if isinstance(getattr(self.B, node.id, None), (int, bool, str, tuple)) and not node.id.startswith("__"):
+                return getattr(self.B, node.id)  # other module-level constants
             raise EncodingError("unknown name " + node.id)
+        if isinstance(node, ast.Tuple):
+            return tuple(self.ev(e, env) for e in node.elts)
         if isinstance(node, ast.BinOp):
             l, r = self.ev(node.left, env), self.ev(node.right, env)
             if isinstance(node.op, ast.RShift):
@@ -91,9 +182,9 @@ class BinsEncoder:
             raise EncodingError("binop " + ast.dump(node.op))
         if isinstance(node, ast.IfExp):
             c = self.ev(node.test, env)
-            a, b = self.ev(node.body, env), self.ev(node.orelse, env)
             if isinstance(c, bool):
-                return a if c else b
+                return self.ev(node.body if c else node.orelse, env)  # (only the branch taken is evaluated, as in Python)
+            a, b = self.ev(node.body, env), self.ev(node.orelse, env)
             if isinstance(a, SymSet) or isinstance(b, SymSet):
                 raise EncodingError("conditional set expression")
             a = a if z3.is_expr(a) else z3.IntVal(a)
@@ -119,6 +210,23 @@ class BinsEncoder:
                 return abs(a) if isinstance(a, int) else z3.If(a < 0, -a, a)
             if isinstance(f, ast.Name) and f.id == "int" and len(args) == 1:
                 return args[0]
+            if isinstance(f, ast.Name) and f.id in ("set", "frozenset") and len(args) == 1 and isinstance(args[0], SymSet):
+                return args[0]
+            if isinstance(f, ast.Name) and f.id == "len" and len(args) == 1 and isinstance(args[0], MemoRef):
+                self._n += 1
+                return z3.Int("memo_len_%d" % self._n)  # size of the memo table: unconstrained
+            if isinstance(f, ast.Name) and f.id in self.helpers:
+                fd = self.helpers[f.id]
+                names = [a.arg for a in fd.args.args]
+                if len(args) != len(names):
+                    raise EncodingError("helper call arity")
+                sub = []
+                caller_pc = list(self._pc)
+                rest = self.block(fd.body, dict(zip(names, args)), caller_pc, sub)
+                self._pc = caller_pc
+                if rest:
+                    raise EncodingError("helper can fall off its end")
+                return _merge_results(sub)
             if isinstance(f, ast.Attribute) and f.attr == "bit_length" and not args:
                 x = self.ev(f.value, env)
                 if isinstance(x, int):
@@ -138,6 +246,11 @@ class BinsEncoder:
             return -self.ev(node.operand, env)
         if isinstance(node, ast.Subscript):
             base, idx = self.ev(node.value, env), self.ev(node.slice, env)
+            if isinstance(base, MemoRef):
+                hit = env.get("$hit:" + base.name)
+                if hit is None:
+                    raise EncodingError("memo table read outside a membership test")
+                return hit
             if z3.is_expr(base):
                 raise EncodingError("symbolic subscript base")
             if z3.is_expr(idx):
@@ -152,9 +265,19 @@ class BinsEncoder:
             return base[idx]
         if isinstance(node, ast.Set):
             return SymSet(singles=[self.ev(e, env) for e in node.elts])
+        if isinstance(node, ast.Compare) and len(node.ops) == 1 and isinstance(node.ops[0], (ast.Is, ast.IsNot)):
+            l, r = self.ev(node.left, env), self.ev(node.comparators[0], env)
+            if r is not None:
+                raise EncodingError("identity test against a non-None value")
+            return (l is None) if isinstance(node.ops[0], ast.Is) else (l is not None)
         if isinstance(node, ast.Compare) and len(node.ops) == 1:
             l, r = self.ev(node.left, env), self.ev(node.comparators[0], env)
             op = node.ops[0]
+            if isinstance(l, tuple) or isinstance(r, tuple):
+                if isinstance(op, (ast.Eq, ast.NotEq)):
+                    eq = _tuple_eq(l, r)
+                    return eq if isinstance(op, ast.Eq) else ((not eq) if isinstance(eq, bool) else z3.Not(eq))
+                raise EncodingError("ordering of tuples")
             table = {ast.GtE: lambda a, b: a >= b, ast.Gt: lambda a, b: a > b, ast.Lt: lambda a, b: a < b,
                      ast.LtE: lambda a, b: a <= b, ast.Eq: lambda a, b: a == b, ast.NotEq: lambda a, b: a != b}
             for t, f in table.items():
@@ -196,6 +319,31 @@ class BinsEncoder:
         if isinstance(st, ast.Return):
             results.append((z3.And(pc) if pc else z3.BoolVal(True), self.ev(st.value, env)))
             return []
+        # memo table: X[key] = value
+        if isinstance(st, ast.Assign) and len(st.targets) == 1 and isinstance(st.targets[0], ast.Subscript) and \
+                isinstance(st.targets[0].value, ast.Name) and st.targets[0].value.id in self.memo_names:
+            key, val = self.ev(st.targets[0].slice, env), self.ev(st.value, env)
+            if self.mode == "producer":
+                self.stores.append((list(pc), key, val))
+            return [(env, pc)]
+        # memo table: v = X.get(key)
+        if isinstance(st, ast.Assign) and len(st.targets) == 1 and isinstance(st.targets[0], ast.Name) and isinstance(st.value, ast.Call) and \
+                isinstance(st.value.func, ast.Attribute) and st.value.func.attr == "get" and isinstance(st.value.func.value, ast.Name) and \
+                st.value.func.value.id in self.memo_names and len(st.value.args) == 1 and not st.value.keywords:
+            key = self.ev(st.value.args[0], env)
+            out = []
+            miss = dict(env)
+            miss[st.targets[0].id] = None
+            out.append((miss, pc))
+            for hit_cond, val in self._hits(key):
+                e = dict(env)
+                e[st.targets[0].id] = val
+                out.append((e, pc + hit_cond))
+            return out
+        # memo table: X.clear() / X.pop(...) only remove entries: ignored (the model already allows any subset of earlier entries)
+        if isinstance(st, ast.Expr) and isinstance(st.value, ast.Call) and isinstance(st.value.func, ast.Attribute) and \
+                isinstance(st.value.func.value, ast.Name) and st.value.func.value.id in self.memo_names and st.value.func.attr in ("clear", "pop", "popitem"):
+            return [(env, pc)]
         if isinstance(st, ast.Assign) and len(st.targets) == 1 and isinstance(st.targets[0], ast.Name):
             e = dict(env)
             e[st.targets[0].id] = self.ev(st.value, env)
@@ -212,8 +360,25 @@ class BinsEncoder:
             else:
                 raise EncodingError("augassign " + ast.dump(st.op))
             return [(e, pc)]
+        # memo table: if key in X: ... X[key] ...
+        if isinstance(st, ast.If) and isinstance(st.test, ast.Compare) and len(st.test.ops) == 1 and isinstance(st.test.ops[0], (ast.In, ast.NotIn)) and \
+                isinstance(st.test.comparators[0], ast.Name) and st.test.comparators[0].id in self.memo_names:
+            name = st.test.comparators[0].id
+            key = self.ev(st.test.left, env)
+            hit_body, miss_body = (st.body, st.orelse) if isinstance(st.test.ops[0], ast.In) else (st.orelse, st.body)
+            out = self.block(miss_body, env, pc, results)
+            for hit_cond, val in self._hits(key):
+                e = dict(env)
+                e["$hit:" + name] = val
+                for e2, pc2 in self.block(hit_body, e, pc + hit_cond, results):
+                    e2 = dict(e2)
+                    e2.pop("$hit:" + name, None)
+                    out.append((e2, pc2))
+            return out
         if isinstance(st, ast.If):
             c = self.ev(st.test, env)
+            if c is None:
+                c = False
             if isinstance(c, SymSet):
                 raise EncodingError("truthiness of set")
             if isinstance(c, bool):
@@ -263,13 +428,46 @@ class BinsEncoder:
             return [(e, pc)]
         raise EncodingError("stmt " + ast.dump(st)[:160])
 
-    def run(self, start, stop, fmt, one):
+    def _hits(self, key):
+        """possible memo hits for `key`: [(extra path conditions, stored value)] over everything earlier calls may have stored"""
+        out = []
+        if self.mode != "consumer":
+            return out  # the hypothetical earlier calls start from an empty table (stored values always come from miss paths)
+        for pcs, k2, val in self.producer_stores:
+            eq = _tuple_eq(key, k2)
+            if eq is False:
+                continue
+            out.append((list(pcs) + ([] if eq is True else [eq]), val))
+        return out
+
+    def _run_once(self, start, stop, fmt, one):
         results = []
         env = {"start": start, "stop": stop, "fmt": fmt, "one": one}
         rest = self.block(self.fn.body, env, [], results)
         if rest:
             raise EncodingError("function can fall off its end")
         return results
+
+    def run(self, start, stop, fmt, one):
+        """without a memo table: the paths of one call. With one: the call is preceded by ARBITRARY earlier calls - one hypothetical earlier call
+        per (fmt, one) combination with free integer arguments (memo_calls); a lookup may miss or hit anything such a call stored under an equal key.
+        Unsat queries therefore hold for every call history, and a model names the earlier call that poisons the table."""
+        if not self.has_memo or self.mode == "fresh":
+            return self._run_once(start, stop, fmt, one)
+        stores = []
+        for pf in ("bed", "gff"):
+            for po in (True, False):
+                self._n += 1
+                ps, pe = z3.Int("memo%d_start" % self._n), z3.Int("memo%d_stop" % self._n)
+                self.mode, self.stores = "producer", []
+                self._run_once(ps, pe, pf, po)
+                stores += self.stores
+                self.memo_calls.append(dict(start=ps, stop=pe, fmt=pf, one=po))
+        self.mode, self.producer_stores = "consumer", stores
+        try:
+            return self._run_once(start, stop, fmt, one)
+        finally:
+            self.mode = "plain"
 
     def bin1(self, start, stop, fmt="bed"):
         """ITE term of the one=True result; NONINT marks a path that returned a set"""
@@ -297,8 +495,8 @@ class BinsEncoder:
 class Query:
     """one negated-property query, decided by z3 and cross-checked by cvc5 (wheel) when available"""
 
-    def __init__(self, name, assertions, vars_, timeout_ms=60000):
-        self.name, self.assertions, self.vars, self.timeout_ms = name, assertions, vars_, timeout_ms
+    def __init__(self, name, assertions, vars_, timeout_ms=60000, memo_calls=()):
+        self.name, self.assertions, self.vars, self.timeout_ms, self.memo_calls = name, assertions, vars_, timeout_ms, list(memo_calls)
 
     def solve(self, cross=True):
         t0 = time.time()
@@ -310,6 +508,11 @@ class Query:
         if r == z3.sat:
             m = s.model()
             out["model"] = {str(v): m.eval(v, model_completion=True).as_long() for v in self.vars}
+            if self.memo_calls:
+                # the earlier calls of the model (only those the model actually constrains), replayed before the call under test
+                used = {str(d) for d in m.decls()}
+                out["model"]["memo"] = [dict(start=m.eval(c["start"], model_completion=True).as_long(), stop=m.eval(c["stop"], model_completion=True).as_long(),
+                                             fmt=c["fmt"], one=c["one"]) for c in self.memo_calls if str(c["start"]) in used or str(c["stop"]) in used]
         if cross:
             out["cvc5"] = cvc5_check(s.to_smt2(), self.timeout_ms)
         return out
